@@ -345,15 +345,6 @@ def feasible_choice_exists(k, S):
         from pyvc.ctx import cur
 
         cur().assume(z3.ForAll(vs, body) if vs else body, tag="requires")
-    bm = Bellman(k, S.b, S.im, 0, S.P, None, None)
-    for t in range(skel.n_periods):
-        bm.t = t
-        for rs in itertools.product(*[range(skel.n_labels(v)) for v in lay.RS]):
-            alts = []
-            for rc in itertools.product(*[range(skel.n_labels(v)) for v in lay.RC]):
-                env = {**dict(zip(lay.RS, rs)), **dict(zip(lay.RC, rc)), "_period": t}
-                alts.append(L.And(*[spec_eval(k, S.b, f, env) for f in skel.names_with_role("filter")]))
-            k.requires(L.Or(*alts))
 
 
 # ----------------------------------------------------------------------------- C13: the panel
